@@ -562,6 +562,83 @@ func TestC25SecondaryAuthor(t *testing.T) {
 	})
 }
 
+// TestC25ConcurrentCallers: block production and block verification evaluate the
+// lottery arithmetic on different goroutines at the same time; every caller must get
+// the answer a lone caller gets (the functions are pure functions of their
+// arguments). The inputs are drawn; the Go scheduler is not controlled, so the
+// interleaving only affects detection power: on a tree where the functions keep no
+// shared state every run passes whatever the schedule.
+func TestC25ConcurrentCallers(t *testing.T) {
+	defer kit.Flush()
+	kit.Note("rule-concurrent", "8 goroutines x 300 calls of getSecondarySlotAuthor / verifySecondarySlotPlain / CalculateThreshold on drawn, pairwise different arguments, all started together; every result must equal the from-the-definition author (BLAKE2b-256 of randomness||slot mod n) resp. the threshold a lone sequential call returned; non-trivial = always (8 distinct argument tuples)")
+	rapid.Check(t, func(t *rapid.T) {
+		const workers, reps = 8, 300
+		type job struct {
+			rnd    Randomness
+			slot   uint64
+			n      int
+			want   uint32
+			c1, c2 uint64
+			thr    *scale.Uint128
+		}
+		jobs := make([]job, workers)
+		for i := range jobs {
+			j := &jobs[i]
+			copy(j.rnd[:], rapid.SliceOfN(rapid.Byte(), 32, 32).Draw(t, "rnd"))
+			j.rnd[0] = byte(i) // pairwise different
+			j.slot = rapid.Uint64().Draw(t, "slot")
+			j.n = rapid.IntRange(2, 1000).Draw(t, "n")
+			msg := binary.LittleEndian.AppendUint64(append([]byte{}, j.rnd[:]...), j.slot)
+			h := kit.Blake256(msg)
+			j.want = uint32(c25modBE(h[:], uint64(j.n)))
+			j.c2 = rapid.Uint64Range(2, 1000).Draw(t, "c2")
+			j.c1 = rapid.Uint64Range(1, j.c2-1).Draw(t, "c1")
+			thr, err := CalculateThreshold(j.c1, j.c2, j.n)
+			if err != nil {
+				t.Fatalf("CalculateThreshold(%d,%d,%d): %v", j.c1, j.c2, j.n, err)
+			}
+			j.thr = thr
+		}
+		start := make(chan struct{})
+		errs := make(chan string, workers)
+		for i := range jobs {
+			go func(j job) {
+				<-start
+				for r := 0; r < reps; r++ {
+					got, err := getSecondarySlotAuthor(j.slot, j.n, j.rnd)
+					if err != nil || got != j.want {
+						errs <- fmt.Sprintf("call %d of getSecondarySlotAuthor(slot=%d,n=%d,rnd=%x) among %d concurrent callers = %d, %v; a lone caller gets %d", r, j.slot, j.n, j.rnd, workers, got, err, j.want)
+						return
+					}
+					if err := verifySecondarySlotPlain(j.want, j.slot, j.n, j.rnd); err != nil {
+						errs <- fmt.Sprintf("call %d of verifySecondarySlotPlain(assigned author %d, slot=%d,n=%d) among %d concurrent callers: %v", r, j.want, j.slot, j.n, workers, err)
+						return
+					}
+					if r%16 == 0 {
+						thr, err := CalculateThreshold(j.c1, j.c2, j.n)
+						if err != nil || thr.Compare(j.thr) != 0 {
+							errs <- fmt.Sprintf("call %d of CalculateThreshold(%d,%d,%d) among %d concurrent callers = %v, %v; a lone caller gets %v", r, j.c1, j.c2, j.n, workers, thr, err, j.thr)
+							return
+						}
+					}
+				}
+				errs <- ""
+			}(jobs[i])
+		}
+		close(start)
+		bad := ""
+		for range jobs {
+			if e := <-errs; e != "" && bad == "" {
+				bad = e
+			}
+		}
+		if bad != "" {
+			t.Fatalf("%s", bad)
+		}
+		kit.Case(fmt.Sprintf("concurrent %x/%d/%d ...", jobs[0].rnd[:4], jobs[0].slot, jobs[0].n), true, "concurrent-callers")
+	})
+}
+
 // TestC25Regressions: fixed cases (hand-computable values and corners of the
 // f64 evaluation) that bypass the generator.
 func TestC25Regressions(t *testing.T) {
